@@ -314,7 +314,11 @@ class SMI(Machine):
                 buf = piece
                 guard = 0
                 while True:
-                    r = self.run(wimpl, [a0, buf])
+                    self.subst.append({})       # the impl's own type parameters are not the caller's
+                    try:
+                        r = self.run(wimpl, [a0, buf])
+                    finally:
+                        self.subst.pop()
                     if r.variant == 1:
                         e = deref(r.fields[0])
                         if isinstance(e, Opaque) and isinstance(e.data, dict) and e.data.get('kind') == 'Interrupted':
@@ -512,7 +516,19 @@ class SMI(Machine):
             return ()
         if meth in ('le', 'lt', 'ge', 'gt') and isinstance(d0, Adt) and d0.name in ('Level', 'LevelFilter') and len(args) == 2:
             o = deref(args[1])
-            return {'le': d0.variant <= o.variant, 'lt': d0.variant < o.variant, 'ge': d0.variant >= o.variant, 'gt': d0.variant > o.variant}[meth]
+
+            def lv(x):
+                """numeric level: LevelFilter::Off = 0, Error = 1 ... Trace = 5; Level::Error = 1 ... Trace = 5"""
+                if isinstance(x, tuple) and len(x) == 2 and x[0] == 'item':
+                    seg = strip_generics_path(x[1]).split('::')
+                    x = self.item_const(x[1]) if seg[-1] not in ENUMS.get('LevelFilter', []) else Adt('LevelFilter', ENUMS['LevelFilter'].index(seg[-1]), [])
+                if isinstance(x, Adt) and x.name == 'LevelFilter':
+                    return x.variant
+                if isinstance(x, Adt) and x.name == 'Level':
+                    return x.variant + 1
+                raise Unsupported('log level %r' % (x,))
+            a_, b_ = lv(d0), lv(o)
+            return {'le': a_ <= b_, 'lt': a_ < b_, 'ge': a_ >= b_, 'gt': a_ > b_}[meth]
         if isinstance(d0, bool) and meth in ('then', 'then_some') and ('bool' in c):
             if not d0:
                 return NONE()
